@@ -1,15 +1,20 @@
-(* C03 — Block and flow structure parses to the node tree the document denotes: THE PARSER HALF.
-   For every layout tree t of the token grammar (Spec/TokenGrammar.v: scalars, aliases, left-out nodes, properties-only
-   nodes, block sequences, indentless sequences, block mappings, flow sequences with wrapped and unwrapped single pairs,
-   flow mappings; Key / Value tokens present or absent, trailing FlowEntry, properties in either order) the parser model
-   run on the tokens wrap es ee (tokens_of t), with ARBITRARY spans, emits exactly wrap_events es (events_of t) and ends
-   normally.  The scanner half (text -> tokens) is covered by the differential runs of vlib/p_c03.py.
-   Only statements, each closed by [exact] of a lemma proved in Proofs/TokenGrammarProofs.v, with Print Assumptions. *)
+(* C03 — Block and flow structure parses to the node tree the document denotes.
+   PARSER HALF (tokens -> events), for every layout the token grammar of Spec/TokenGrammar.v allows:
+     scalars, aliases, left-out nodes, properties-only nodes, block sequences, indentless sequences, block mappings, flow
+     sequences with wrapped and unwrapped single pairs (INCLUDING the pair whose key is left out, `[ ? ]` / `[ ? : x ]`, which
+     the parser mishandled before /repo c5ad60c), flow mappings; Key / Value tokens present or absent, trailing FlowEntry,
+     properties in either order; ARBITRARY spans; streams of any number of documents with %YAML / %TAG directives, '---' and any
+     number of '...' markers, with or without keep_tags; the fuel of parse_tokens is shown to suffice.
+   SCANNER HALF (text -> tokens) and the composition text -> events, for a sub-language of TEXT (Spec/FlowText.v: single-line
+     flow sequences and flow mappings of one-word plain scalars, single pairs `k: v` inside sequences, arbitrary nesting up to
+     the scanner's flow-level limit, one separator layout): second part of this file.  All other text layouts: differential runs.
+   Only statements, each closed by [exact] of a lemma proved in Proofs/TokenGrammarProofs.v / TokenStreamProofs.v /
+   ScanFlowProofs.v, with Print Assumptions. *)
 From Coq Require Import List NArith Bool.
 Import ListNotations.
-Require Import Parser SBase SFetch Pipe Drivers TokenGrammar TokenGrammarProofs.
+Require Import Parser SBase SFetch Pipe Drivers TokenGrammar TokenGrammarProofs TokenStreamProofs FlowText ScanFlowProofs.
 
-(* The statement, parameterised by the well-formedness predicate on (explicit document start?, root). *)
+(* The statement for one document, parameterised by the well-formedness predicate on (explicit document start?, root). *)
 Definition C03_tokens_statement (WF : bool -> ltree -> bool) : Prop :=
   forall t es ee (toks : list token) keep se fuel,
     WF es t = true ->                               (* the layout may stand where it stands *)
@@ -19,18 +24,13 @@ Definition C03_tokens_statement (WF : bool -> ltree -> bool) : Prop :=
     map fst (fst (parse_all fuel (init_p toks keep) se [])) = wrap_events es (events_of t) /\
     snd (parse_all fuel (init_p toks keep) se []) = PDone.
 
-(* FULL statement: every layout YAML 1.2 admits.  NOT proved: it is false for the unchanged parser on
-   LFSeq _ [inr (LNone, _)] _  (`[ ? ]`, `[ ? : x ]`; recorded finding explicit-key-indicator-without-key-in-flow-sequence). *)
-Definition C03_tokens_full : Prop := C03_tokens_statement wf_root_full.
-
-(* PROVED: all nine constructors (LScalar, LAlias, LNone in every slot that allows it, LProps, LBSeq, LISeq, LBMap, LFSeq,
-   LFMap), every combination of present/absent Key and Value tokens that the grammar allows, trailing FlowEntry, one
-   document with or without '---' / '...'.  The only difference to C03_tokens_full: in an UNWRAPPED single pair of a flow
-   sequence (inr (k, (vt, v))) the key k is not LNone.  Not covered: several documents per stream, %YAML / %TAG directives
-   (p_tags = []), and the bound "fuel = 4 * tokens + 40 suffices" of parse_tokens (fuel is a hypothesis here). *)
-Theorem C03_tokens_partial : C03_tokens_statement wf_root.
+(* FULL statement: every layout YAML 1.2 allows at the token level (all nine constructors, every combination of
+   present/absent Key and Value tokens the grammar allows, trailing FlowEntry, with or without '---' / '...').
+   PROVED since /repo c5ad60c (flow_sequence_entry_mapping_key no longer skips a token after a left-out key); before, only the
+   restriction "the key of an unwrapped single pair is not left out" was provable (former C03_tokens_partial). *)
+Theorem C03_tokens_full : C03_tokens_statement wf_root.
 Proof. exact parse_wrap. Qed.
-Print Assumptions C03_tokens_partial.
+Print Assumptions C03_tokens_full.
 
 (* The continuation lemma behind it, for EVERY tree and every parser state whose top continuation is s:
    parsing tokens_of t ++ x :: rest from there emits the events of t (anchor ids continuing the parser's counter, aliases
@@ -39,16 +39,45 @@ Theorem C03_node_continuation : forall t, NodeSpec t.
 Proof. exact node_spec. Qed.
 Print Assumptions C03_node_continuation.
 
-(* parse_tokens (the entry point the correspondence runs execute on the implementation's real tokens) is this parser *)
+(* WHOLE STREAMS: documents ds (each: directives, '---'?, root layout, number of '...' tokens), well-formed as a stream
+   (docs_wf: directives and documents without '---' only at the start or after '...', directives need '---', at most one
+   %YAML and no repeated handle per document, a left-out root needs '---'), aliases bound within their document and tag
+   handles declared by the document's %TAG directives (or, with keep_tags, an earlier document's): the parser emits
+   exactly stream_events: per document DocumentStart, the root's events with anchors local to the document and ids
+   counting on through the stream, handles looked up in the document's directives first, DocumentEnd. *)
+Theorem C03_stream : forall ds (toks : list token) keep se fuel,
+    docs_wf true ds = true -> docs_bound keep [] 1%N ds = true ->
+    map snd toks = stream_toks ds ->
+    (length (stream_events keep ds) < fuel)%nat ->
+    map fst (fst (parse_all fuel (init_p toks keep) se [])) = stream_events keep ds /\
+    snd (parse_all fuel (init_p toks keep) se []) = PDone.
+Proof. exact parse_stream. Qed.
+Print Assumptions C03_stream.
+
+(* parse_tokens (the entry point the correspondence runs execute on the implementation's real tokens) is this parser, and
+   its fuel 4 * tokens + 40 always suffices (Weight: a well-formed layout has at most 4 events per token) *)
 Theorem C03_parse_tokens : forall t es ee (toks : list token) keep se,
     wf_root es t = true -> bound [] env0 (pre_events t) = true ->
     map snd toks = wrap es ee (tokens_of t) ->
-    (length (wrap_events es (events_of t)) < 4 * length toks + 40)%nat ->
     map fst (fst (parse_tokens toks se keep)) = wrap_events es (events_of t) /\ snd (parse_tokens toks se keep) = PDone.
-Proof. exact (fun t es ee toks keep se Hw Hb Hm Hf => parse_wrap t es ee toks keep se _ Hw Hb Hm Hf). Qed.
+Proof. exact parse_tokens_wrap. Qed.
 Print Assumptions C03_parse_tokens.
 
-(* ---- the hypotheses are satisfiable and the statement is not vacuous ---- *)
+Theorem C03_parse_tokens_stream : forall ds (toks : list token) keep se,
+    docs_wf true ds = true -> docs_bound keep [] 1%N ds = true ->
+    map snd toks = stream_toks ds ->
+    map fst (fst (parse_tokens toks se keep)) = stream_events keep ds /\ snd (parse_tokens toks se keep) = PDone.
+Proof. exact parse_tokens_stream. Qed.
+Print Assumptions C03_parse_tokens_stream.
+
+(* the handle table the parser builds from a document's directives has the lookups of "own directives first, then the kept
+   table" (doc_tags); number / bound depend on a table only through its lookups *)
+Theorem C03_directive_table : forall dirs seen ver t t',
+    dirs_ok seen ver dirs = true -> teq t t' -> teq (extend_tags t (dir_tags dirs)) (dir_tags dirs ++ t').
+Proof. exact extend_tags_teq. Qed.
+Print Assumptions C03_directive_table.
+
+(* ---- the hypotheses are satisfiable and the statements are not vacuous ---- *)
 Definition c03_pr (a : option str) (tg : option (str * str)) : props := {| pr_anchor := a; pr_tag := tg; pr_tag_first := true |}.
 (* &a !t { k: [x, *a, ? y], : ~ }  inside a block sequence with a left-out entry and a block mapping whose value is an
    indentless sequence *)
@@ -62,16 +91,119 @@ Definition c03_example : ltree :=
           (false, LNone, (true, LNone)) ] false;
       LBMap no_props [ (true, LScalar no_props DoubleQuoted [], (true, LISeq no_props [LScalar no_props Literal [10%N]; LNone]));
                        (true, LNone, (false, LNone)) ] ].
+Definition c03_spanned (l : list tok) : list token := map (fun k => (span_empty {| m_index := 0; m_line := 0; m_col := 0 |}, k)) l.
 Example c03_example_wf : wf_root false c03_example = true /\ bound [] env0 (pre_events c03_example) = true.
 Proof. vm_compute. split; reflexivity. Qed.
 Example c03_example_events :
-  map fst (fst (parse_tokens (map (fun k => (span_empty {| m_index := 0; m_line := 0; m_col := 0 |}, k)) (wrap false true (tokens_of c03_example))) SEnded false))
+  map fst (fst (parse_tokens (c03_spanned (wrap false true (tokens_of c03_example))) SEnded false))
   = wrap_events false (events_of c03_example)
   /\ length (events_of c03_example) = 25%nat.
 Proof. vm_compute. split; reflexivity. Qed.
+(* the layouts the former partial theorem excluded: [ ? ]   [ ? : x ]   [ ? , ? : x , ]  *)
+Definition c03_qmark : ltree :=
+  LFSeq no_props [inr (LNone, (false, LNone)); inr (LNone, (true, LScalar no_props Plain [120%N]))] true.
+Example c03_qmark_events :
+  wf_root false c03_qmark = true
+  /\ map snd (c03_spanned (tokens_of c03_qmark))
+     = [TFlowSequenceStart; TKey; TFlowEntry; TKey; TValue; TScalar Plain [120%N]; TFlowEntry; TFlowSequenceEnd]
+  /\ map fst (fst (parse_tokens (c03_spanned (wrap false false (tokens_of c03_qmark))) SEnded false))
+     = [EStreamStart; EDocumentStart false; ESequenceStart 0 None;
+        EMappingStart 0 None; empty_scalar; empty_scalar; EMappingEnd;
+        EMappingStart 0 None; empty_scalar; EScalar [120%N] Plain 0 None; EMappingEnd;
+        ESequenceEnd; EDocumentEnd; EStreamEnd].
+Proof. vm_compute. repeat split; reflexivity. Qed.
 (* wf is not "accept everything": a block sequence inside a flow sequence, a left-out flow-sequence entry *)
 Example c03_wf_rejects :
   wf_root false (LFSeq no_props [inl (LBSeq no_props [])] false) = false /\
   wf_root false (LFSeq no_props [inl LNone] false) = false /\
   wf_root false LNone = false /\ wf_root true LNone = true.
+Proof. vm_compute. repeat split; reflexivity. Qed.
+(* a stream:  %YAML 1.2 / %TAG !e! x / --- &a !e!t v ... ... / *nothing* --- / --- *a is NOT bound (anchors are per document) *)
+Definition c03_stream_example : list ldoc :=
+  [ {| ld_dirs := [DVersion 1 2; DTag [33;101;33]%N [120%N]]; ld_start := true;
+       ld_root := LScalar (c03_pr (Some [97%N]) (Some ([33;101;33]%N, [116%N]))) Plain [118%N]; ld_ends := 2 |};
+    {| ld_dirs := []; ld_start := false; ld_root := LBSeq no_props [LNone]; ld_ends := 0 |};
+    {| ld_dirs := []; ld_start := true; ld_root := LNone; ld_ends := 0 |} ].
+Example c03_stream_example_ok :
+  docs_wf true c03_stream_example = true /\ docs_bound false [] 1%N c03_stream_example = true
+  /\ map fst (fst (parse_tokens (c03_spanned (stream_toks c03_stream_example)) SEnded false)) = stream_events false c03_stream_example
+  /\ stream_events false c03_stream_example
+     = [EStreamStart; EDocumentStart true; EScalar [118%N] Plain 1 (Some {| tg_handle := [120%N]; tg_suffix := [116%N] |}); EDocumentEnd;
+        EDocumentStart false; ESequenceStart 0 None; empty_scalar; ESequenceEnd; EDocumentEnd;
+        EDocumentStart true; empty_scalar; EDocumentEnd; EStreamEnd].
+Proof. vm_compute. repeat split; reflexivity. Qed.
+Example c03_stream_rejects :
+  (* a document without '---' behind one that was not closed by '...'; a directive there; an alias to the previous document;
+     a handle of the previous document without keep_tags, and with *)
+  docs_wf true [ {| ld_dirs := []; ld_start := true; ld_root := LNone; ld_ends := 0 |};
+                 {| ld_dirs := []; ld_start := false; ld_root := LAlias [97%N]; ld_ends := 0 |} ] = false
+  /\ docs_wf true [ {| ld_dirs := []; ld_start := true; ld_root := LNone; ld_ends := 0 |};
+                    {| ld_dirs := [DVersion 1 2]; ld_start := true; ld_root := LNone; ld_ends := 0 |} ] = false
+  /\ docs_bound false [] 1%N [ {| ld_dirs := []; ld_start := true; ld_root := LScalar (c03_pr (Some [97%N]) None) Plain []; ld_ends := 0 |};
+                               {| ld_dirs := []; ld_start := true; ld_root := LAlias [97%N]; ld_ends := 0 |} ] = false
+  /\ (let two := [ {| ld_dirs := [DTag [33;101;33]%N [120%N]]; ld_start := true; ld_root := LNone; ld_ends := 1 |};
+                   {| ld_dirs := []; ld_start := true; ld_root := LProps (c03_pr None (Some ([33;101;33]%N, [116%N]))); ld_ends := 0 |} ] in
+      docs_bound false [] 1%N two = false /\ docs_bound true [] 1%N two = true).
+Proof. vm_compute. repeat split; reflexivity. Qed.
+
+(* ================================================================================================================= *)
+(* SCANNER HALF, on text.  Spec/FlowText.v: fnode = word | [ entries ] | { pairs }, entry = node | word :_ node,
+   pair = word :_ node, entries / pairs separated by ,_ (_ = one space), nothing behind an opening or before a closing
+   bracket; a word is a non-empty string of characters that are no blank, break, NUL, flow indicator, quote or one of
+   : # - ? * & ! | > % @ ` (wch); render f is the text, lt f the layout tree it denotes (a single pair is the implicit
+   mapping LFMap [(Key k, Value v)] inside the sequence), doc_text f = render f followed by a line feed.               *)
+(* ================================================================================================================= *)
+
+(* THE SCANNER (scan_str = the scanner model over the string input with the fuel of the correspondence runs) on the text
+   of ANY collection of the sub-language, nested at most 255 deep (FLOW_LEVEL_MAX; deeper is an error by design), of any
+   length: it ends normally and delivers exactly StreamStart, the tokens of the layout tree, StreamEnd.  Covers: the
+   simple-key stack across nested flow levels (a Key token is inserted in front of a key's scalar when its ':' arrives,
+   wherever that scalar sits in the queue), the per-level implicit-mapping states of /repo ad74b3e (FlowMappingStart
+   inserted before, FlowMappingEnd emitted at the comma or closing bracket that ends a single pair, also when the value of the
+   pair is a nested flow mapping with its own commas: the repaired class comma-of-nested-flow-mapping-ends-implicit-pair), the root
+   collection's own simple key going stale at the line break or by the 1024-character limit, the token queue being
+   handed out only when no simple key is pending. *)
+Theorem C03_flow_text_tokens : forall f,
+    fwf f = true -> is_coll f = true -> (depth f <= 255)%nat ->
+    exists toks, scan_str (doc_text f) = (toks, SEnded) /\ map snd toks = wrap false false (tokens_of (lt f)).
+Proof. exact scan_flow. Qed.
+Print Assumptions C03_flow_text_tokens.
+
+(* TEXT -> EVENTS: the whole model pipeline run_str (scanner, then parser, with the fuels the correspondence runs use) on
+   such a text emits exactly the events of the tree the text denotes, and ends normally. *)
+Theorem C03_flow_text_events : forall f,
+    fwf f = true -> is_coll f = true -> (depth f <= 255)%nat ->
+    map fst (fst (run_str (doc_text f))) = wrap_events false (events_of (lt f)) /\ snd (run_str (doc_text f)) = PDone.
+Proof. exact run_flow. Qed.
+Print Assumptions C03_flow_text_events.
+
+(* the induction behind it: a node of the sub-language anywhere inside a flow collection, from ANY scanner state in flow
+   context (any token queue, simple-key stack, implicit-mapping stack, position on the first line), behind 0 or more blanks *)
+Theorem C03_flow_node : forall f, fwf f = true -> NodeScan f.
+Proof. exact node_scan. Qed.
+Print Assumptions C03_flow_node.
+
+(* [a, [b], k: {x: y, z: []}, {}] *)
+Definition c03_flow_example : fnode :=
+  FS [ (None, FW [97%N]); (None, FS [(None, FW [98%N])]);
+       (Some [107%N], FM [([120%N], FW [121%N]); ([122%N], FS [])]); (None, FM []) ].
+Example c03_flow_example_ok :
+  fwf c03_flow_example = true /\ is_coll c03_flow_example = true /\ depth c03_flow_example = 3%nat
+  /\ doc_text c03_flow_example
+     = [91; 97; 44; 32; 91; 98; 93; 44; 32; 107; 58; 32; 123; 120; 58; 32; 121; 44; 32; 122; 58; 32; 91; 93; 125; 44; 32; 123; 125; 93; 10]%N
+  /\ map snd (fst (scan_str (doc_text c03_flow_example)))
+     = [TStreamStart; TFlowSequenceStart; TScalar Plain [97%N]; TFlowEntry;
+        TFlowSequenceStart; TScalar Plain [98%N]; TFlowSequenceEnd; TFlowEntry;
+        TFlowMappingStart; TKey; TScalar Plain [107%N]; TValue;
+          TFlowMappingStart; TKey; TScalar Plain [120%N]; TValue; TScalar Plain [121%N]; TFlowEntry;
+                             TKey; TScalar Plain [122%N]; TValue; TFlowSequenceStart; TFlowSequenceEnd; TFlowMappingEnd;
+        TFlowMappingEnd; TFlowEntry;
+        TFlowMappingStart; TFlowMappingEnd; TFlowSequenceEnd; TStreamEnd]
+  /\ map fst (fst (run_str (doc_text c03_flow_example))) = wrap_events false (events_of (lt c03_flow_example))
+  /\ length (events_of (lt c03_flow_example)) = 18%nat.
+Proof. vm_compute. repeat split; reflexivity. Qed.
+(* the predicates are not "accept everything": an empty word, a word with a blank, a word starting like an indicator *)
+Example c03_flow_rejects :
+  fwf (FS [(None, FW [])]) = false /\ fwf (FS [(None, FW [97; 32; 98]%N)]) = false /\ fwf (FM [([45; 97]%N, FW [98%N])]) = false
+  /\ is_coll (FW [97%N]) = false.
 Proof. vm_compute. repeat split; reflexivity. Qed.
